@@ -642,7 +642,7 @@ AVOID_DEPTH = {
     "line-comments": {"asan": 10000, "plain": 40000},
     "ternary-open": {"asan": 150, "plain": 300},            # C10-ternary-reparse-superlinear
     "ternary-mid": {"asan": 1000, "plain": 10000},          # C10-ternary-swallows-nesting-error
-    "x-ternary-mid": {"asan": 1000, "plain": 10000},
+    "x-ternary-mid": {"asan": 1000, "plain": 5000},
     "struct-self-nest": {"asan": 1000, "plain": 1000},      # C10-struct-chain-superlinear
     "enum-members-wide": {"asan": 10000, "plain": 30000},   # C10-lexer-copy-quadratic (and a linear member search per member)
     "switch-cases-wide": {"asan": 5000, "plain": 20000},
@@ -651,8 +651,12 @@ AVOID_DEPTH = {
     "lt-gt-chain": {"asan": 15000, "plain": 50000},
     "flat-lt": {"asan": 15000, "plain": 50000},
     "x-flat-lt": {"asan": 15000, "plain": 50000},
-    "x-string-grow": {"asan": 20000},                       # the sanitised build keeps every freed string (quarantine)
-    "cast-generic": {"asan": 5000, "plain": 30000},         # C10-lexer-copy-quadratic: two lexer copies + a type instantiation per cast
+    "x-string-grow": {"asan": 20000, "plain": 50000},       # the sanitised build keeps every freed string (quarantine)
+    "cast-generic": {"asan": 5000, "plain": 15000},         # C10-lexer-copy-quadratic: two lexer copies + a type instantiation per cast
+    "interp": {"asan": 20000, "plain": 50000},              # C10-source-line-copy-quadratic: a string literal cannot be broken into lines
+    "interp-fmt": {"asan": 15000, "plain": 40000},
+    "x-interp-many": {"asan": 20000, "plain": 50000},
+    "x-ternary-right": {"plain": 5000},                     # evaluation below the guard is quadratic (type inference re-walks the chain)
     "statements-many": {"asan": 15000},
     "x-statements-many": {"asan": 15000},
     "x-postfix-chain": {"asan": 15000},
@@ -676,8 +680,8 @@ def amp_capped(kind, depth, build, scale=1.0):
         d = max(10000, int(d * scale))
     data = amp(kind, d)
     cap = int(CAP_BYTES[build] * scale)
-    if len(data) > cap and d > 10000:
-        d = max(10000, int(d * cap / len(data)))
+    if len(data) > cap and d > 1000:
+        d = max(1000, int(d * cap / len(data)))
         data = amp(kind, d)
     return d, data
 
